@@ -339,7 +339,9 @@ impl Run {
     pub fn merge_sub(&mut self, tag: &str, ev: &Value) {
         let cov = &ev["coverage"];
         self.evaluations += cov["evaluations"].as_u64().unwrap_or(0);
-        self.nontrivial += cov["distinct_nontrivial"].as_u64().unwrap_or(0);
+        // the twin re-executes (a subset of) the same cases under the other build profile: they are
+        // executions, not new distinct cases, so they do not add to distinct_nontrivial
+        self.extra.insert(format!("distinct_nontrivial_repeated_in_{}_profile", tag), json!(cov["distinct_nontrivial"].as_u64().unwrap_or(0)));
         if let Some(gs) = cov["generators"].as_array() {
             for g in gs {
                 let mut g = g.clone();
@@ -608,4 +610,91 @@ impl RStats {
             run.sample(s);
         }
     }
+}
+
+/// A fast check failed on `what`, but the careful (per-call) re-examination of the same input
+/// found nothing wrong. Re-run the fast check: if it passes now, the code under test returned
+/// different results for the same call (state carried between calls, or a data race) — that is a
+/// violation in its own right and the returned text describes it. If the fast check keeps
+/// failing while the careful one passes, the two harness paths contradict each other: harness
+/// defect (panic => exit 2), never a violation.
+pub fn unstable_message(what: &str, rerun_fast_ok: impl Fn() -> bool) -> String {
+    for _ in 0..3 {
+        if rerun_fast_ok() {
+            return format!(
+                "{}: a call returned a wrong result during the enumeration, but repeating the same call (alone, and again inside the fast check) gives the right one — the result depends on something other than the input (state carried over from earlier calls, or a data race between threads)",
+                what
+            );
+        }
+    }
+    panic!("fast and slow check paths disagree consistently on {} (harness defect, not a violation)", what);
+}
+
+/// Values related to `b` by the operations a hash / key / mask / fast path would plausibly
+/// conflate it with: single-bit flips, +-1, shifts, complements, truncations, and the offsets that
+/// matter for hand ranks (7462, 7463).
+pub fn u16_partners(b: u16) -> Vec<u16> {
+    let mut v: Vec<u16> = Vec::with_capacity(48);
+    for k in 0..16 {
+        v.push(b ^ (1 << k));
+    }
+    for d in [1u16, 2, 10, 13, 52, 166, 322, 1599, 1609, 2467, 3325, 6185, 7462, 7463, 8192, 32768] {
+        v.push(b.wrapping_add(d));
+        v.push(b.wrapping_sub(d));
+    }
+    v.extend([!b, b >> 1, b << 1, b & 0x1FFF, b & 0xFF, b.swap_bytes(), b.rotate_left(3), 0, 1, 7462, 7463, u16::MAX]);
+    v
+}
+
+// ---------------------------------------------------------------------------------------------
+// call-order independence over a finite set of inputs
+
+/// Every ordered pair (a, b) of `items`, back to back on one thread: `touch(a)` is called (result
+/// ignored), then `check(b)` calls the same API on b and compares with the model. A one-entry memo,
+/// a stale cache or any other state carried from one call to the next shows up as a `check(b)`
+/// that fails only after a particular `a`. Rows (fixed a) are distributed over threads; a failure
+/// is confirmed on the calling thread (warm-up, a, b) before it is reported, so that the reported
+/// sequence reproduces in a fresh process. Returns (index a, index b, message).
+pub fn ordered_pairs<T: Sync>(
+    items: &[T],
+    touch: &(dyn Fn(&T) + Sync),
+    check: &(dyn Fn(&T) -> Result<(), String> + Sync),
+) -> Option<(usize, usize, String)> {
+    use rayon::prelude::*;
+    let n = items.len();
+    let cand: Option<(usize, usize)> = (0..n).into_par_iter().find_map_first(|a| {
+        for b in 0..n {
+            let r = guard(|| {
+                touch(&items[a]);
+                check(&items[b])
+            });
+            if !matches!(r, Ok(Ok(()))) {
+                return Some((a, b));
+            }
+        }
+        None
+    });
+    let (a, b) = cand?;
+    // confirm sequentially: warm-up on an unrelated item, then a, then b
+    let confirm = |a: usize, b: usize| -> Option<String> {
+        let w = (a + n / 2 + 1) % n;
+        let _ = guard(|| touch(&items[w]));
+        let _ = guard(|| touch(&items[a]));
+        match guard(|| check(&items[b])) {
+            Ok(Ok(())) => None,
+            Ok(Err(m)) => Some(m),
+            Err(p) => Some(format!("panicked: {}", p)),
+        }
+    };
+    if let Some(m) = confirm(a, b) {
+        return Some((a, b, m));
+    }
+    // the parallel hit did not reproduce in isolation: look for any reproducible pair in that row,
+    // then anywhere (sequentially); if none, report the unconfirmed observation
+    for bb in 0..n {
+        if let Some(m) = confirm(a, bb) {
+            return Some((a, bb, m));
+        }
+    }
+    Some((a, b, "a call gave a wrong result after another call during the parallel sweep, but the two-call sequence does not reproduce on its own: the result depends on more history than the previous call (or on a data race)".to_string()))
 }
